@@ -33,73 +33,156 @@ def _final_const(body, local):
     return 'expr'
 
 
+def _capture_index(e):
+    """k if e is (a deref/ref chain over) field k of the closure environment (arg 1)"""
+    while e and e[0] in ('deref', 'ref'):
+        e = e[1]
+    if e and e[0] == 'field':
+        base = e[1]
+        while base and base[0] in ('deref', 'ref'):
+            base = base[1]
+        if base and base[0] == 'arg' and base[1] == 1:
+            try:
+                return int(e[2])
+            except ValueError:
+                return None
+    return None
+
+
+def _closure_ops(parent, closure):
+    """operands captured by `closure` where `parent` builds it"""
+    for bb in parent.bbs:
+        for st in bb['st']:
+            r = st.get('r')
+            if r and r['k'] == 'agg' and r['kind'].startswith('Closure:') and mirlib.canon(r['kind'][8:], parent.crate) == closure.key:
+                return parent.expr_rvalue(r)[2]
+    return None
+
+
+def _known_switch_value(body, t, parent=None, cap_ops=None):
+    """constant a switch operand is known to hold: a literal, a flag local whose last assignment (in dominance order)
+    is a literal, or a captured reference to such a flag of the enclosing function"""
+    e = body.expr_op(t['o'])
+    if e[0] == 'const':
+        return e[1]
+    if e[0] == 'local':
+        v = _final_const(body, e[1])
+        return v if isinstance(v, int) else None
+    k = _capture_index(e)
+    if k is not None and parent is not None and cap_ops and k < len(cap_ops):
+        src = strip_refs(cap_ops[k])
+        if src[0] == 'const':
+            return src[1]
+        if src[0] == 'local':
+            v = _final_const(parent, src[1])
+            return v if isinstance(v, int) else None
+    return None
+
+
+def _folded(body, parent=None, cap_ops=None):
+    """copy of the body in which every switch on a known constant is replaced by a goto to the edge taken"""
+    import copy
+    raw = copy.deepcopy(body.raw)
+    n = 0
+    for bb in raw['bbs']:
+        t = bb['t']
+        if t['k'] != 'switch':
+            continue
+        v = _known_switch_value(body, t, parent, cap_ops)
+        if v is None:
+            continue
+        tgt = t['else']
+        for val, tb in t['vals']:
+            if int(val) == v:
+                tgt = tb
+        bb['t'] = {'k': 'goto', 't': tgt}
+        n += 1
+    return mirlib.Body(body.prog, body.crate, raw), n
+
+
+def _gate(fb, cs):
+    """True: the call runs only when a PartialEq comparison said "not equal" (the part is omitted for a default);
+    False: it runs for every entry; None: some other condition"""
+    gs = []
+    for cond, val, bi, tb in fb.edge_guards(cs.bb):
+        if cond[0] == 'discr' and cond[1][0] == 'call' and cond[1][1].endswith('Iterator>::next'):
+            continue   # the loop over the entries
+        gs.append((cond, val))
+    if not gs:
+        return False
+    if len(gs) == 1:
+        cond, val = gs[0]
+        while cond[0] == 'un' and cond[1] == 'Not':
+            cond = cond[2]
+            val = 1 if val == 0 else 0 if val in (1, ('not', [0])) else val
+        if cond[0] == 'call' and cond[1].endswith('::eq') and val == 0:
+            return True
+        if cond[0] == 'call' and cond[1].endswith('::ne') and val in (1, ('not', [0])):
+            return True
+    return None
+
+
+def _fn_param_calls(fb, via_capture=None):
+    """{parameter index of the enclosing fn: [call sites]} for calls of closure-typed parameters"""
+    out = {}
+    for cs in fb.calls():
+        if cs.name != 'call' or not cs.t['args']:
+            continue
+        recv = strip_refs(cs.arg(0))
+        while recv and recv[0] in ('deref', 'ref'):
+            recv = recv[1]
+        idx = None
+        if via_capture is None:
+            if recv[0] == 'arg':
+                idx = recv[1]
+        else:
+            k = _capture_index(cs.arg(0))
+            if k is not None and k < len(via_capture):
+                src = strip_refs(via_capture[k])
+                if src[0] == 'arg':
+                    idx = src[1]
+        if idx is not None:
+            out.setdefault(idx, []).append(cs)
+    return out
+
+
 def analyse(prog, cg, mm):
-    """-> {'encode': (key_skippable, val_skippable), 'encoded_len': (...)} where skippable = the part is omitted when it equals
-    the default (True) or always emitted (False)"""
+    """-> {'encode': (key_skippable, val_skippable), 'encoded_len': (...)}: is the key / value part of an entry omitted
+    when it equals its default (True) or always emitted (False)?  Decided on the CFG after folding the feature flags:
+    parameter and local names play no part (the four closures are identified by their position in the signature)."""
     out = {}
     enc = [b for b in prog.bodies.values() if b.crate == 'pilota' and b.key == 'prost::encoding::%s::encode_with_default' % mm]
     ln = [b for b in prog.bodies.values() if b.crate == 'pilota' and b.key == 'prost::encoding::%s::encoded_len_with_default' % mm]
     if not enc or not ln:
         return None
-    b = enc[0]
-    res = []
-    for nm in ('skip_key', 'skip_val'):
-        loc = [i for i in range(len(b.locals)) if b.local_name(i) == nm]
-        if not loc:
-            return None
-        v = _final_const(b, loc[0])
-        if v is None:
-            return None
-        res.append(v == 'expr' or v == 1)
-    out['encode'] = tuple(res)
-    # encoded_len: closure captures &skip_default_value; each side is `eq && flag`
+    fb, nfold = _folded(enc[0])
+    calls = _fn_param_calls(fb)
+    # signature: (key_encode, key_encoded_len, val_encode, val_encoded_len, val_default, tag, values, buf)
+    if any(len(calls.get(i, [])) != 1 for i in (1, 2, 3, 4)):
+        return None
+    g = {i: _gate(fb, calls[i][0]) for i in (1, 2, 3, 4)}
+    if any(v is None for v in g.values()):
+        return None
+    out['encode'] = (g[1], g[3])
+    out['prefix'] = (g[2], g[4])
+    # encoded_len_with_default(key_encoded_len, val_encoded_len, val_default, tag, values): the per-entry closure
     l = ln[0]
-    loc = [i for i in range(len(l.locals)) if l.local_name(i) == 'skip_default_value']
-    if not loc:
-        return None
-    flag = _final_const(l, loc[0])
-    if flag not in (0, 1):
-        return None
     clos = cg.children.get(l.id, [])
     if not clos:
         return None
     c = max(clos, key=lambda x: len(x.bbs))
-    # in the closure: for each eq call (key side first, value side second, in CFG order), is its true edge followed by a test of the captured flag?
-    sides = []
-    import codec
-    order = codec.rpo(c)
-    eqs = [cs for bi in order for cs in c.calls() if cs.bb == bi and cs.name in ('eq', 'ne')]
-    for cs in eqs:
-        tgt = cs.t.get('t')
-        qualified = False
-        # follow: switch on eq result -> (true) -> switch on flag
-        seen = set()
-        cur = tgt
-        steps = 0
-        while cur is not None and steps < 6 and cur not in seen:
-            seen.add(cur)
-            t = c.bbs[cur]['t']
-            if t['k'] == 'switch':
-                e = c.expr_op(t['o'])
-                s = show(e)
-                if e[0] == 'call' and e[3] == cs.bb:
-                    # the switch on the eq result itself: go to the "equal" edge
-                    cur = t['else']
-                    steps += 1
-                    continue
-                if any(x[0] in ('field', 'deref') for x in subexprs(e)) and 'skip_default_value' in s or ('arg1' in s and e[0] in ('deref', 'field')):
-                    qualified = True
-                break
-            elif t['k'] in ('goto', 'drop'):
-                cur = t['t']
-            else:
-                break
-            steps += 1
-        sides.append(qualified)
-    if len(sides) != 2:
+    ops = _closure_ops(l, c)
+    if ops is None:
         return None
-    out['encoded_len'] = tuple((flag == 1) if q else True for q in sides)
-    out['detail'] = {'flag': flag, 'qualified': sides}
+    fc, nfold2 = _folded(c, l, ops)
+    ccalls = _fn_param_calls(fc, ops)
+    if any(len(ccalls.get(i, [])) != 1 for i in (1, 2)):
+        return None
+    gl = {i: _gate(fc, ccalls[i][0]) for i in (1, 2)}
+    if any(v is None for v in gl.values()):
+        return None
+    out['encoded_len'] = (gl[1], gl[2])
+    out['detail'] = {'folded switches': (nfold, nfold2)}
     return out
 
 
@@ -114,7 +197,7 @@ def skip_default(rep, rule, ctx):
                 rep.anchor_missing(rule, 'skip-default shape of prost::encoding::%s::{encode,encoded_len}_with_default (%s)' % (mm, label))
                 continue
             want_on = variant == 'ws'
-            if r['encode'] == r['encoded_len'] and r['encode'] == ((False, False) if want_on else (True, True)):
+            if r['encode'] == r['encoded_len'] == r['prefix'] and r['encode'] == ((False, False) if want_on else (True, True)):
                 rep.ok(rule, key, '%s: key/value parts omitted-when-default = %s in encode and encoded_len' % (label, r['encode']))
             else:
-                rep.bad(rule, key, '', 'prost %s, %s: encode omits default (key, value) parts = %s but encoded_len assumes %s (%s): the reported length differs from the bytes written for entries holding a default' % (mm, label, r['encode'], r['encoded_len'], r.get('detail')))
+                rep.bad(rule, key, '', 'prost %s, %s: encode omits default (key, value) parts = %s, its entry length prefix assumes %s, but encoded_len assumes %s (%s): the reported length differs from the bytes written for entries holding a default' % (mm, label, r['encode'], r['prefix'], r['encoded_len'], r.get('detail')))
